@@ -139,7 +139,7 @@ class Matrix:
         '''
 
         # absent an initial guess and constraints we can directly forward to _solver
-        if lhs0 is constrain is rconstrain is None:
+        if lhs0 is constrain is rconstrain is None and rhs is not None:
             return self._solver(rhs, solver, atol=atol, rtol=rtol, **solverargs)
 
         # otherwise we need to do some pre- and post-processing
